@@ -20,7 +20,7 @@ type vfs struct {
 	faultOn  map[string]bool
 	faulted  bool
 	faultSeq int
-	openFail string // "", "open", "mmap"
+	openFail string // "", "open", "mmap", "unmap"
 	events   []string
 	ops      int
 }
@@ -254,6 +254,10 @@ func init() {
 		m.unmapped++
 		fs.event("unmap " + m.path)
 		*p = Slice{}
+		if fs.openFail == "unmap" {
+			// the unmap system call fails (the slice header is cleared all the same, as the library does)
+			return in.nativeErrValue(errInjected)
+		}
 		return Iface{}
 	}
 
